@@ -58,6 +58,8 @@ def _gen_one(rng, seed):
     symvals = {}
     if rng.random() < 0.25 and gen.symbolise(prog, rng, "p"):
         symvals["p"] = rng.choice(["1/3", "1/2", "3/4", "1/10"])
+    for v in prog.pop("uninitialised", []):
+        symvals[v] = rng.choice(["7/3", "-11/5", "13/2"])      # a generic initial value for a variable that has none
     return {
         "kind": "ir-exec",
         "prog": prog,
@@ -129,6 +131,10 @@ def run_case(case, extra=None):
 def _sig(p):
     if p.get("downstream_of_f3") and p.get("source_guard_false"):
         # computed, after guard exit, from a value that is out of type through known finding F3: same root cause
+        return (True, True, True)
+    if p.get("via_default") and p.get("source_guard_false") and p.get("no_initial_value") and not p.get("default_is_other_var"):
+        # a variable without initial value keeps its symbolic initial value <v>0 while the guard is false: the typer does not
+        # count the default of a loop-guard-implied condition as a use of the variable - same root cause as F3
         return (True, True, True)
     return (bool(p.get("via_default")), bool(p.get("source_guard_false")), bool(p.get("default_is_other_var")))
 
